@@ -125,7 +125,14 @@ func (mq *MessageQueue) buildMessage(size uint64, buildMessageFn func(*Builder))
 		mq.builders = append(mq.builders, NewBuilder(ctx, topic))
 	}
 	builder := mq.builders[len(mq.builders)-1]
+	before := builder.BlockSize()
 	buildMessageFn(builder)
+	// size bytes were reserved for this call. Only block data that made it into the message is handed
+	// back when the message is sent, fails or is scrubbed; what the callback did not add (a response
+	// stream closed in the meantime adds nothing) has to be released here
+	if added := builder.BlockSize() - before; added < size {
+		_ = mq.allocator.ReleaseBlockMemory(mq.p, size-added)
+	}
 	return !builder.Empty()
 }
 
